@@ -18,6 +18,7 @@ macro_rules! byte (
 #[derive(Debug, Clone, PartialEq, Eq)]
 pub(super) enum ChunkedState {
     Size,
+    SizeDigits,
     SizeLws,
     Extension,
     SizeLf,
@@ -38,7 +39,8 @@ impl ChunkedState {
     ) -> Poll<Result<ChunkedState, io::Error>> {
         use self::ChunkedState::*;
         match *self {
-            Size => ChunkedState::read_size(body, size),
+            Size => ChunkedState::read_size(body, size, true),
+            SizeDigits => ChunkedState::read_size(body, size, false),
             SizeLws => ChunkedState::read_size_lws(body),
             Extension => ChunkedState::read_extension(body),
             SizeLf => ChunkedState::read_size_lf(body, *size),
@@ -51,16 +53,22 @@ impl ChunkedState {
         }
     }
 
-    fn read_size(rdr: &mut BytesMut, size: &mut u64) -> Poll<Result<ChunkedState, io::Error>> {
+    /// Reads one byte of the chunk size. `first` is true until a hex digit has been read: the size
+    /// is `1*HEXDIG`, so an empty size line is not a (zero) size.
+    fn read_size(
+        rdr: &mut BytesMut,
+        size: &mut u64,
+        first: bool,
+    ) -> Poll<Result<ChunkedState, io::Error>> {
         let radix = 16;
 
         let rem = match byte!(rdr) {
             b @ b'0'..=b'9' => b - b'0',
             b @ b'a'..=b'f' => b + 10 - b'a',
             b @ b'A'..=b'F' => b + 10 - b'A',
-            b'\t' | b' ' => return Poll::Ready(Ok(ChunkedState::SizeLws)),
-            b';' => return Poll::Ready(Ok(ChunkedState::Extension)),
-            b'\r' => return Poll::Ready(Ok(ChunkedState::SizeLf)),
+            b'\t' | b' ' if !first => return Poll::Ready(Ok(ChunkedState::SizeLws)),
+            b';' if !first => return Poll::Ready(Ok(ChunkedState::Extension)),
+            b'\r' if !first => return Poll::Ready(Ok(ChunkedState::SizeLf)),
             _ => {
                 return Poll::Ready(Err(io::Error::new(
                     io::ErrorKind::InvalidInput,
@@ -74,7 +82,7 @@ impl ChunkedState {
                 *size = n;
                 *size += rem as u64;
 
-                Poll::Ready(Ok(ChunkedState::Size))
+                Poll::Ready(Ok(ChunkedState::SizeDigits))
             }
             None => {
                 debug!("chunk size would overflow u64");
